@@ -181,4 +181,5 @@ def check(ctx: Ctx) -> None:
     r09_5(ctx)
     from .c07 import r07_4
     r07_4(ctx)
+    T.broadcast_expansion(ctx, "R09.6")
     T.column_removal(ctx, "R09.7")
